@@ -51,9 +51,14 @@ type schedPoint struct {
 
 type accessRec struct {
 	wTid, wClk int
-	wFn        string
-	reads      map[int]int
-	readFn     map[int]string
+	wPC        uintptr
+	reads      [4]int // clock of the last read per thread (0 = none); at most 4 threads
+	readPC     [4]uintptr
+}
+
+type accessKey struct {
+	ptr   uintptr
+	field string
 }
 
 type Race struct {
@@ -87,7 +92,7 @@ type Sched struct {
 	cur        int
 	events     chan schedEvent
 	locks      map[unsafe.Pointer]*lockState
-	access     map[string]*accessRec
+	access     map[accessKey]*accessRec
 	races      map[string]Race
 	choices    []int
 	exec       *Exec
@@ -210,23 +215,25 @@ func (s *Sched) lockHook(p unsafe.Pointer, rw bool, op int) {
 	// resumed: the scheduler granted the lock
 }
 
-func callerFn() string {
-	pc := make([]uintptr, 6)
-	n := runtime.Callers(4, pc)
-	fr := runtime.CallersFrames(pc[:n])
-	for {
-		f, more := fr.Next()
-		if !strings.Contains(f.Function, "verifhook") && f.Function != "" {
-			name := f.Function
-			if i := strings.LastIndex(name, "/"); i >= 0 {
-				name = name[i+1:]
-			}
-			return name
-		}
-		if !more {
-			return "?"
-		}
+func callerPC() uintptr {
+	var pcs [1]uintptr
+	// 0 Callers, 1 callerPC, 2 accessHook, 3 verifhook.Access, 4 the instrumented method
+	if runtime.Callers(4, pcs[:]) == 0 {
+		return 0
 	}
+	return pcs[0]
+}
+
+func pcFn(pc uintptr) string {
+	if pc == 0 {
+		return "?"
+	}
+	f, _ := runtime.CallersFrames([]uintptr{pc}).Next()
+	name := f.Function
+	if i := strings.LastIndex(name, "/"); i >= 0 {
+		name = name[i+1:]
+	}
+	return name
 }
 
 func (s *Sched) accessHook(obj any, field string, write bool) {
@@ -234,44 +241,35 @@ func (s *Sched) accessHook(obj any, field string, write bool) {
 		return
 	}
 	t := s.threads[s.cur]
-	key := fmt.Sprintf("%x/%s", reflect.ValueOf(obj).Pointer(), field)
+	key := accessKey{reflect.ValueOf(obj).Pointer(), field}
 	a := s.access[key]
 	if a == nil {
-		a = &accessRec{wTid: -1, reads: map[int]int{}, readFn: map[int]string{}}
+		a = &accessRec{wTid: -1}
 		s.access[key] = a
 	}
-	fn := ""
-	report := func(kind, other string) {
-		if fn == "" {
-			fn = callerFn()
-		}
-		r := Race{Field: field, A: fn, B: other, Kind: kind}
+	pc := callerPC()
+	report := func(kind string, other uintptr) {
+		r := Race{Field: field, A: pcFn(pc), B: pcFn(other), Kind: kind}
 		s.races[r.Key()] = r
 	}
 	if a.wTid >= 0 && a.wTid != t.id && a.wClk > t.vc[a.wTid] {
 		if write {
-			report("write-write", a.wFn)
+			report("write-write", a.wPC)
 		} else {
-			report("read-write", a.wFn)
+			report("read-write", a.wPC)
 		}
 	}
 	if write {
-		for rt, rc := range a.reads {
-			if rt != t.id && rc > t.vc[rt] {
-				report("read-write", a.readFn[rt])
+		for rt := 0; rt < len(s.threads) && rt < 4; rt++ {
+			if rc := a.reads[rt]; rc != 0 && rt != t.id && rc > t.vc[rt] {
+				report("read-write", a.readPC[rt])
 			}
 		}
-		if fn == "" {
-			fn = callerFn()
-		}
-		a.wTid, a.wClk, a.wFn = t.id, t.vc[t.id], fn
-		a.reads, a.readFn = map[int]int{}, map[int]string{}
-	} else {
-		if fn == "" {
-			fn = callerFn()
-		}
+		a.wTid, a.wClk, a.wPC = t.id, t.vc[t.id], pc
+		a.reads, a.readPC = [4]int{}, [4]uintptr{}
+	} else if t.id < 4 {
 		a.reads[t.id] = t.vc[t.id]
-		a.readFn[t.id] = fn
+		a.readPC[t.id] = pc
 	}
 }
 
@@ -281,7 +279,7 @@ func (s *Sched) Run(bodies []func(), prefix []int) *Exec {
 	s.threads = nil
 	s.events = make(chan schedEvent)
 	s.locks = map[unsafe.Pointer]*lockState{}
-	s.access = map[string]*accessRec{}
+	s.access = map[accessKey]*accessRec{}
 	s.races = map[string]Race{}
 	s.exec = &Exec{}
 	for i := 0; i < n; i++ {
